@@ -190,6 +190,9 @@ func checkRef(c *explore.Ctx, s []byte, limit int, r *ctlReader, setting int, si
 		c.Fail("clean-end-not-io.EOF:"+site, "after all %d values the Decoder returns %v, want io.EOF (%s)", len(want), o.err, desc)
 	case eof && !clean && (o.err == io.EOF || o.err == nil):
 		c.Fail("dirty-end-reported-as-io.EOF:"+site, "the stream ends inside a value or is malformed but the Decoder returns %v after %d values (%s)", o.err, len(o.vals), desc)
+	case !eof && len(o.vals) < len(want) && !isMalformed(d):
+		// encoding/json hands out every complete value that was delivered before it reports the reader's error
+		c.Fail("values-lost-before-reader-error:"+site, "Decoder yields %d of the %d complete values delivered before the reader failed, then %v (%s)", len(o.vals), len(want), o.err, desc)
 	case !eof && o.err == io.EOF:
 		c.Fail("reader-error-swallowed:"+site, "the reader failed with %v but the Decoder reports io.EOF after %d values (%s)", r.term, len(o.vals), desc)
 	case !eof && !errors.Is(o.err, r.term):
